@@ -57,6 +57,8 @@ def handle (j : Json) : Option Json := do
       let w ← getRatList j "w"
       let k ← getNat j "k"
       let q ← getRatList j "q"
+      -- hypothesis of the theorems: the knots never decrease (otherwise `bad-op`)
+      if !sortedB t then none else
       pure (optRatsJ (q.mapM (spline1dL t w k)))
   | "b1legacy" =>
       let t ← getRatList j "t"
@@ -89,6 +91,7 @@ def handle (j : Json) : Option Json := do
       let ky ← getNat j "ky"
       let q ← getArr j "q"
       let q ← q.mapM asPair
+      if !(sortedB tx && sortedB ty) then none else
       pure (optRatsJ (q.mapM (fun p => spline2dL tx ty w kx ky p.1 p.2)))
   | "rev" =>
       let t ← getRatList j "t"
@@ -132,6 +135,8 @@ def handle (j : Json) : Option Json := do
       let evs ← getArr j "evs"
       let evs ← evs.mapM asEv
       let s0 : St := { data := data, csvM := csvM, ini := ini, cache := none, served := [] }
+      -- hypothesis of `served_is_current`: time stamps never go backwards (otherwise `bad-op`)
+      if !(decide (Chrono 0 evs)) then none else
       let s := run s0 evs
       pure (Json.arr ((s.served.map (fun p =>
         Json.arr #[Json.num (Int.ofNat p.1.1), optNatJ p.1.2, Json.bool p.2])).toArray))
